@@ -41,6 +41,9 @@ pub enum Add {
     /// add_import_func: not judged itself (C06 does that), it renumbers the function index space around
     /// the other additions (a ref.func initialiser, a function export added before or after it)
     ImportFunc,
+    /// delete_memory on the unreferenced local memory of base `rich+spare-memory` (a deletion, not an
+    /// addition: it makes the index space of the memories added afterwards start at a freed place)
+    DeleteSpareMemory,
 }
 
 #[derive(Clone, Debug, Serialize, Deserialize)]
@@ -70,6 +73,25 @@ const BASES: &[(&str, &str, bool)] = &[
     (
         "imports-only",
         r#"(module (type $v (func)) (import "env" "fi0" (func (type $v))) (import "env" "gi0" (global i32)) (import "env" "mi0" (memory 1)))"#,
+        true,
+    ),
+    (
+        // `rich` plus an unreferenced local memory (ID 2) that a history may delete: the deletion shifts
+        // nothing that exists, but the next added memory takes the freed place in the index space
+        "rich+spare-memory",
+        r#"(module (type $v (func))
+          (import "env" "fi0" (func $fi0 (type $v)))
+          (import "env" "gi0" (global $gi0 i32))
+          (import "env" "mi0" (memory $mi0 1))
+          (memory $m0 16)
+          (memory $mspare 5)
+          (global $g0 (mut i32) (i32.const 0x60000000))
+          (global $g1 i32 (i32.const 0x60000001))
+          (func $l0 (type $v) (i32.const 0x5F000000) drop)
+          (func $l1 (type $v) (i32.const 0x5F000001) drop)
+          (export "e_l1" (func $l1))
+          (data (memory $m0) (i32.const 0) "base")
+          (elem declare func $l0 $l1 $fi0))"#,
         true,
     ),
     (
@@ -210,6 +232,9 @@ fn run_case(c: &Case) -> Outcome {
                     let (expr, _) = init_real(init);
                     module.mod_global_init_expr(GlobalID(*g), expr);
                     modinit.push((*g, init_expected(init).0));
+                }
+                Add::DeleteSpareMemory => {
+                    module.delete_memory(wirm::ir::id::MemoryID(2));
                 }
                 Add::ImportFunc => {
                     let ty = module.types.add_func_type(&[], &[], None);
@@ -491,7 +516,14 @@ fn alphabet(base: usize) -> Vec<Add> {
         v.push(Add::PassiveData { len });
     }
     let nm = (b.mem_imports.len() + b.local_mems.len()) as u32;
+    let spare = BASES[base].0 == "rich+spare-memory";
+    if spare {
+        v.push(Add::DeleteSpareMemory);
+    }
     for m in 0..nm {
+        if spare && m == 2 {
+            continue; // nothing refers to the memory that may be deleted
+        }
         for len in [0usize, 3] {
             v.push(Add::ActiveData { mem: m, global_offset: false, len });
             if has_gi0 {
@@ -527,6 +559,9 @@ fn admissible(base: usize, adds: &[Add]) -> bool {
     let b = decode(&base_bytes(base)).expect("base decodes");
     let mems = b.mem_imports.len() + b.local_mems.len() + adds.iter().filter(|a| matches!(a, Add::LocalMemory { .. } | Add::ImportMemory { .. })).count();
     if mems > 1 && !BASES[base].2 {
+        return false;
+    }
+    if adds.iter().filter(|a| matches!(a, Add::DeleteSpareMemory)).count() > 1 {
         return false;
     }
     // shared memories cannot be mixed with active data into unshared ones etc.: nothing to exclude;
